@@ -131,6 +131,7 @@ def recursive(R, prog):
 def unlock_side(R, prog):
     # do_mutex_unlock: one critical section, store before wake, wake whenever there is a head
     G = K.build(R, prog, 'photon::do_mutex_unlock')
+    PM = K.param(G.root, 0)
     lt = an.LockTracker()
     st_owner = lambda ev: (K.atomic_op(ev) or (None, None))[1] in ('store', 'operator=', 'exchange') and (K.atomic_op(ev)[0] or '').endswith('owner')
     wake = lambda ev: ev.kind == 'call' and ev.callee() == 'photon::prelocked_thread_interrupt'
@@ -167,7 +168,7 @@ def unlock_side(R, prog):
 
     def new_owner_locked(st, ev):
         ts = stored_threads(ev)
-        return an.has_lock(st, 'm->splock') and all((('LH:' + t) in st) or an.has_lock(st, t + '->lock') for t in ts)
+        return an.has_lock(st, PM + '->splock') and all((('LH:' + t) in st) or an.has_lock(st, t + '->lock') for t in ts)
     K.check_at(R, P + '.K2', G, res, st_owner, new_owner_locked,
                key_fn=lambda ev: P + '.K2:photon::do_mutex_unlock:owner.store',
                describe=lambda ev: 'owner.store under m->splock, and the thread being made owner (%s) is locked at that moment' % stored_threads(ev),
@@ -179,7 +180,7 @@ def unlock_side(R, prog):
             R.violated(P + '.K8', P + '.K8:photon::do_mutex_unlock:wakes-unidentified-thread', f.id, ev.loc(),
                        '%s wakes whichever thread is at the head now, not the thread stored into owner' % ev.show()[:60])
     K.check_at(R, P + '.K8', G, res, wake,
-               require=lambda st, ev: 'S:owner_store' in st and an.has_lock(st, 'm->splock') and ev.arg_path(0) in cands and an.has_lock(st, ev.arg_path(0) + '->lock'),
+               require=lambda st, ev: 'S:owner_store' in st and an.has_lock(st, PM + '->splock') and ev.arg_path(0) in cands and an.has_lock(st, ev.arg_path(0) + '->lock'),
                key_fn=lambda ev: P + '.K8:photon::do_mutex_unlock:wake-after-store',
                describe=lambda ev: 'the stored owner itself is woken, after owner.store, under m->splock and its thread lock',
                min_sites=1, what='prelocked_thread_interrupt')
